@@ -105,9 +105,17 @@ func Aborting() bool { return aborted.Load() }
 // prefix does not fit the execution.
 
 // Run executes body as thread 0 under the scheduler, replaying prefix and then taking choice 0.
+// RunStartHooks are called at the start of every controlled execution, before the body: shims use them to drop state
+// that lives in package-level objects of the code under test and would otherwise carry over from one execution to the
+// next (a package-level sync.Pool's free list), which would make executions depend on the ones before them.
+var RunStartHooks []func()
+
 func Run(prefix []int, horizon int, body func()) Outcome {
 	if horizon <= 0 {
 		horizon = 100000
+	}
+	for _, h := range RunStartHooks {
+		h()
 	}
 	s := &sched{prefix: prefix, horizon: horizon, done: make(chan struct{})}
 	cur = s
